@@ -18,7 +18,7 @@ RULE = ("exhaustive shapes of degree 0-4 (Bezier, multi-span, repeated and full-
 def gen(tier, seed):
     rnd = random.Random(seed)
     vecs = shape_vectors(3, 2) if tier == "quick" else shape_vectors(4, 3)
-    vecs += [random_vector(rnd, pmax=4, mmax=3) for i in range(15 if tier == "quick" else 300)]
+    vecs += [random_vector(rnd, pmax=4, mmax=3) for i in range(15 if tier == "quick" else 900)]
     cases = []
     for v in vecs:
         U, p = v["U"], v["p"]
